@@ -1053,6 +1053,8 @@ impl ValueTable {
 			let mut header = Header::default();
 			log.read(&mut header.0)?;
 			self.file.write_at(&header.0, 0)?;
+			#[cfg(parity_db_verif)]
+			crate::verif::event("store", self.id.as_u16() as u64, 0);
 			self.written.store(header.filled(), Ordering::Relaxed);
 			log::trace!(target: "parity-db", "{}: Enacted header, {} filled", self.id, header.filled());
 			return Ok(())
@@ -1077,6 +1079,8 @@ impl ValueTable {
 				.write_at(&buf[0..(SIZE_SIZE + len as usize)], index * (self.entry_size as u64))?;
 			log::trace!(target: "parity-db", "{}: Enacted {}: {}, {} bytes", self.id, index, hex(&buf.1[6..32]), len);
 		}
+		#[cfg(parity_db_verif)]
+		crate::verif::event("store", self.id.as_u16() as u64, index);
 		Ok(())
 	}
 
